@@ -6,6 +6,7 @@
 
 #include <string>
 #include <sstream>
+#include <iomanip>
 #include <memory>
 
 
@@ -44,7 +45,9 @@ namespace sqf
                 if (obj->group_id().empty())
                 {
                     std::stringstream sstream;
-                    sstream << static_cast<const void*>(obj.get()) << "# " << obj->netid() << ": " << d_side::to_string(obj->side());
+                    // The leading id used to be the address of the object: a value of the heap of this very process, different with every run.
+                    // The net id, which is unique per runtime, takes its place.
+                    sstream << "0x" << std::hex << std::setw(8) << std::setfill('0') << obj->netid() << std::dec << "# " << obj->netid() << ": " << d_side::to_string(obj->side());
                     return sstream.str();
                 }
                 else
